@@ -71,9 +71,11 @@ impl<K, V> Lru<K, V> {
         &&& forall|i: int| 0 <= i < self.tbl.len() ==>
                 (#[trigger] self.tbl[i] matches Some(e) ==> e.hash == H(e.key) && lslot(self.cap, e.key) == i)
     }
-    /// A-cap: the capacity exponent and the fill counter are far from the machine-word limit
+    /// A-cap: the capacity exponent and the fill counter are far from the machine-word limit.  The bound 31 is not
+    /// arbitrary: in the grow test `(1 << self.cap) as f64` the literal is an i32, so the test is only meaningful (and
+    /// panic-free in debug builds) for cap <= 31; the Kani harness k_lru_grow_test_only_above_half covers exactly cap < 32
     pub open spec fn in_range(self) -> bool {
-        self.num_filled < usize::MAX && (self.cap < 62 || 2 * self.num_filled <= pow2(self.cap as nat))
+        self.num_filled < usize::MAX && (self.cap < 31 || 2 * self.num_filled <= pow2(self.cap as nat))
     }
 
     pub open spec fn has(self, k: K) -> bool { lhas(self.tbl@, self.cap, k) }
@@ -127,7 +129,7 @@ impl<K: PartialEq + Clone, V: Clone> Lru<K, V> {
 //%% @rewrite 1 /for i in self\.tbl\.iter\(\) \{/ => for i in it: self.tbl.iter() {
 //%% @spec
         requires
-            old(self).wf(), old(self).cap < 62,
+            old(self).wf(), old(self).cap < 31,
         ensures
             final(self).wf(), final(self).cap == old(self).cap + 1, final(self).num_filled == old(self).num_filled,
             forall|k: K| (#[trigger] final(self).tbl@[lslot(final(self).cap, k)] matches Some(e) && e.key == k)
@@ -139,7 +141,7 @@ impl<K: PartialEq + Clone, V: Clone> Lru<K, V> {
         }
 //%% @loop 1 /^for i in it: self\.tbl\.iter\(\)$/
             invariant
-                self.wf(), self.cap < 62,
+                self.wf(), self.cap < 31,
                 new_tbl.wf(), new_tbl.cap == self.cap + 1, new_tbl.num_filled <= it.index@,
                 forall|a: K, b: K| #[trigger] call_ensures(K::clone, (&a,), b) ==> a == b,
                 forall|a: V, b: V| #[trigger] call_ensures(V::clone, (&a,), b) ==> a == b,
